@@ -9,7 +9,7 @@ import harness
 import vlib
 from vlib import coq_str, coq_list
 
-AL = [".", "..", "a", "a.ts", "a.b", "ts", "x.ts", "x.ts.ts"]
+AL = [".", "..", "a", "a.ts", "a.b", "ts", "x.ts", "x.ts.ts", "..g"]   # `..g`: an ordinary name that begins with two dots
 BASES = ["", "./bindings", "/abs/b", "./x/../bindings/", "b//c/."]
 CWD = "/tmp/v"
 CHUNK = 256
@@ -58,7 +58,7 @@ def run(ctx):
     rf, rt_ = rels(dfrom), rels(dto)
     rng = random.Random(ctx.seed)
     extra = []
-    ral = AL + ["c", "Foo.ts", "d.js.ts", "e f", "é.ts", ""]
+    ral = AL + ["c", "Foo.ts", "d.js.ts", "e f", "é.ts", "", "...", "..h.ts", ".hidden"]
     for _ in range(nrandom):
         def rp():
             k = rng.randint(1, 5)
